@@ -163,7 +163,38 @@ FILE_NAMES = ["a.yaml", "b.yaml", "c.yaml", "d/x.yaml", "d/y.yaml", "d/init.yaml
               "d.yaml", "a/init.yaml"]
 
 
-def rand_file_text(rng, engine, p_include=0.6, p_bad=0.06):
+def names_of(rel):
+    """the dotted names under which a file of the tree can be referenced"""
+    segs = rel[:-len(".yaml")].split("/")
+    out = [".".join(segs)]
+    if segs[-1] == "init" and len(segs) > 1:
+        out.append(".".join(segs[:-1]))
+    return out
+
+
+def relative_form(rel_from, target):
+    """dotted relative reference from the file rel_from to the name target, or None"""
+    d = rel_from.split("/")[:-1]
+    tsegs = target.split(".")
+    common = 0
+    while common < len(d) and common < len(tsegs) - 1 and d[common] == tsegs[common]:
+        common += 1
+    return "." + "." * (len(d) - common) + ".".join(tsegs[common:])
+
+
+def rand_include_name(rng, rel, avail, p_bad):
+    r = rng.random()
+    if r < p_bad:
+        return rng.choice(INCLUDE_NAMES_BAD)
+    if r < 0.15 or not avail:
+        return rng.choice(INCLUDE_NAMES_OK)
+    tgt = rng.choice(avail)
+    if rng.random() < 0.45:
+        return relative_form(rel, tgt)
+    return tgt
+
+
+def rand_file_text(rng, engine, rel="a.yaml", avail=(), p_include=0.55, p_bad=0.05):
     before = rand_data_items(rng, rng.randrange(0, 3))
     after = rand_data_items(rng, rng.randrange(0, 3))
     used = {k for k, _ in before}
@@ -173,10 +204,9 @@ def rand_file_text(rng, engine, p_include=0.6, p_bad=0.06):
     if rng.random() < p_include:
         r = rng.random()
         if r < p_bad:
-            inc = rng.choice(["a", 5, {"a": 1}, {}, None, "", [], b"ab".decode()])
+            inc = rng.choice(["a", 5, {"a": 1}, {}, None, "", [], "ab"])
         else:
-            inc = [rng.choice(INCLUDE_NAMES_BAD) if rng.random() < p_bad else rng.choice(INCLUDE_NAMES_OK)
-                   for _ in range(rng.randrange(1, 3))]
+            inc = [rand_include_name(rng, rel, list(avail), p_bad) for _ in range(rng.randrange(1, 3))]
         items.append(("include", inc))
         items += after
     if engine and rng.random() < 0.4:
@@ -185,44 +215,46 @@ def rand_file_text(rng, engine, p_include=0.6, p_bad=0.06):
         items = [(k, v) for k, v in items if k != key]
         items.insert(rng.randrange(0, len(items) + 1), ("raw", line))
     r = rng.random()
-    if r < 0.02:
+    if r < 0.01:
         return ""                        # empty file: None, not a mapping
-    if r < 0.04:
+    if r < 0.02:
         return "- 1\n- 2\n"              # a list
-    if r < 0.05:
+    if r < 0.03:
         return "k: [1\n"                 # YAML syntax error
-    if r < 0.06 and engine:
+    if r < 0.04 and engine:
         return "{% if %}\nk: 1\n"        # template syntax error
     return yaml_text(items)
 
 
-TOP_TARGETS = ["*", "s1", "s2", "not s1", "s*", "*1 or *2", "@data_literal:x@1", "@data_glob:x.y@s*", "zzz"]
-TOP_NAMES = ["a", "b", "c", "d", "d.x", "d.y", "d.sub.z", "d.sub", "a", "b", "d.init"]
+TOP_TARGETS = ["*", "*", "s1", "s2", "not s1", "s*", "*1 or *2", "@data_literal:x@1", "@data_glob:x.y@s*", "zzz"]
 
 
-def rand_top(rng, engine):
+def rand_top(rng, engine, avail=()):
+    avail = list(avail) or ["a"]
     r = rng.random()
-    if r < 0.02:
+    if r < 0.01:
         return ""
-    if r < 0.03:
+    if r < 0.015:
         return "- a\n"
-    if r < 0.04:
+    if r < 0.02:
         return "'*': [a\n"
     n = rng.randrange(1, 4)
-    exprs = rng.sample(TOP_TARGETS, n)
+    exprs = rng.sample(TOP_TARGETS[1:], n)
+    if rng.random() < 0.75:
+        exprs[rng.randrange(n)] = "*"
     lines = []
     for e in exprs:
         r = rng.random()
-        if r < 0.03:
+        if r < 0.02:
             fl = rng.choice(["a", None, 5, {"a": 1}, ["a", ""], ["a", 5], [None]])
         else:
-            fl = [rng.choice(TOP_NAMES) for _ in range(rng.randrange(0, 4))]
-        if rng.random() < 0.02:
+            fl = [rng.choice(avail) if rng.random() < 0.95 else "zz" for _ in range(rng.randrange(0, 4) or 1)]
+        if rng.random() < 0.015:
             e = rng.choice(["(", "a and", "@bogus@x", 5])
         lines.append(flow(e) + ": " + flow(fl))
     if engine and rng.random() < 0.3:
-        lines.append("{% if id == 's1' %}'*': [c]{% endif %}")
-    if engine and rng.random() < 0.05:
+        lines.append("{% if id == 's1' %}'s1*': [" + rng.choice(avail) + "]{% endif %}")
+    if engine and rng.random() < 0.03:
         return "{% if id == 'nobody' %}'*': [a]{% endif %}\n"
     return "\n".join(lines) + "\n"
 
@@ -230,14 +262,16 @@ def rand_top(rng, engine):
 def rand_tree(rng, engine, nfiles=None):
     n = rng.randrange(1, 8) if nfiles is None else nfiles
     names = rng.sample(FILE_NAMES, min(n, len(FILE_NAMES)))
+    avail = [x for fn in names for x in names_of(fn)]
     tree = {}
-    if rng.random() < 0.985:
-        tree["top.yaml"] = rand_top(rng, engine)
-    for fn in names:
-        tree[fn] = rand_file_text(rng, engine)
-    if rng.random() < 0.03:
-        tree["e/init.yaml"] = DIR          # init.yaml that is a directory
+    if rng.random() < 0.99:
+        tree["top.yaml"] = rand_top(rng, engine, avail)
+    for i, fn in enumerate(names):
+        later = [x for g in names[i + 1:] for x in names_of(g)]
+        tree[fn] = rand_file_text(rng, engine, fn, later if (later and rng.random() < 0.85) else avail)
     if rng.random() < 0.02:
+        tree["e/init.yaml"] = DIR          # init.yaml that is a directory
+    if rng.random() < 0.01:
         tree["top.yaml"] = DIR
     return tree
 
